@@ -43,12 +43,14 @@ pub fn menu() -> Vec<Item> {
         Item { name: "font_builder", small: true, f: font_builder_small },
         Item { name: "gvar_small", small: true, f: gvar_small },
         Item { name: "gpos_single", small: true, f: gpos_single },
+        Item { name: "gpos_single_scripts", small: true, f: gpos_single_scripts },
         Item { name: "gpos_promoted", small: false, f: gpos_promoted },
         Item { name: "gpos_split_pairpos1", small: false, f: gpos_split_pairpos1 },
         Item { name: "gpos_classpair_builder", small: false, f: gpos_classpair_builder },
         Item { name: "gvar_shared_tuples", small: false, f: gvar_shared_tuples },
         Item { name: "ivs_builder_many_regions", small: false, f: ivs_builder_many },
         Item { name: "corpus_layout_roundtrip", small: false, f: corpus_layout_roundtrip },
+        Item { name: "corpus_layout_anekbangla", small: false, f: corpus_layout_small },
         Item { name: "klippa_roboto_abc", small: false, f: klippa_roboto },
         Item { name: "klippa_variable", small: false, f: klippa_variable },
     ]
@@ -188,6 +190,16 @@ fn gpos_single() -> Vec<u8> {
     let sp = SinglePos::format_1(cov, ValueRecord::new().with_x_advance(-40));
     let lookup = PositionLookup::Single(Lookup::new(LookupFlag::empty(), vec![sp]));
     let gpos = Gpos::new(Default::default(), Default::default(), LookupList::new(vec![lookup]));
+    dump_table(&gpos).unwrap()
+}
+
+/// The same lookup below real script and feature lists: 10 objects (thorough 2-thread bound).
+fn gpos_single_scripts() -> Vec<u8> {
+    let cov: CoverageTable = [g(3), g(4)].into_iter().collect();
+    let sp = SinglePos::format_1(cov, ValueRecord::new().with_x_advance(-40));
+    let lookup = PositionLookup::Single(Lookup::new(LookupFlag::empty(), vec![sp]));
+    let (sl, fl) = simple_script_feature_lists(1);
+    let gpos = Gpos::new(sl, fl, LookupList::new(vec![lookup]));
     dump_table(&gpos).unwrap()
 }
 
@@ -350,8 +362,8 @@ fn corpus(path: &str) -> Vec<u8> {
 
 /// GSUB + GPOS + GDEF of a corpus font converted to owned write-fonts values and recompiled into a
 /// font with FontBuilder.
-fn corpus_layout_roundtrip() -> Vec<u8> {
-    let data = corpus("klippa/test-data/fonts/Roboto-Regular.ttf");
+fn corpus_layout(path: &str) -> Vec<u8> {
+    let data = corpus(path);
     let font = FontRef::new(&data).unwrap();
     let mut fb = FontBuilder::new();
     let gsub: write_fonts::tables::gsub::Gsub = font.gsub().unwrap().to_owned_table();
@@ -361,6 +373,16 @@ fn corpus_layout_roundtrip() -> Vec<u8> {
     let gdef: Gdef = font.gdef().unwrap().to_owned_table();
     fb.add_table(&gdef).unwrap();
     fb.build()
+}
+
+/// 469 objects: gap injection with one non-zero gap only
+fn corpus_layout_roundtrip() -> Vec<u8> {
+    corpus_layout("klippa/test-data/fonts/Roboto-Regular.ttf")
+}
+
+/// 70 objects: small enough for all gap pairs
+fn corpus_layout_small() -> Vec<u8> {
+    corpus_layout("klippa/test-data/fonts/AnekBangla-subset.ttf")
 }
 
 fn klippa_subset(path: &str, unicodes: &[u32], gids: &[u32]) -> Vec<u8> {
